@@ -374,16 +374,18 @@ Proof.
     destruct (Reqb_spec (f a) 0); [split; [reflexivity|tauto]|]. destruct (Reqb_spec (f b) 0); [split; [reflexivity|tauto]|].
     split; [intros [?|[?|?]]; lra|reflexivity].
 Qed.
-(** Inv_Erf(p): |p| >= 1 exits, except in the 1e-16 neighbourhood of +1 where 10 is returned by design;
-    for |p| < 1 the only remaining test is the nested Find_Root bracket of erf(x) - p on [-10, 10] *)
+(** Inv_Erf(p): |p| >= 1 exits, except in the 1e-16 neighbourhoods of +1 and -1 where +-10 is returned by design;
+    for |p| < 1 outside those neighbourhoods the only remaining test is the nested Find_Root bracket of
+    erf(x) - p on [-10, 10] *)
 Lemma inv_erf_spec p :
-  (Rabs (p - 1) < 1 / 10000000000000000 -> guard_inv_erf RO p = Ok tt) /\
-  (1 / 10000000000000000 <= Rabs (p - 1) -> 1 <= Rabs p -> guard_inv_erf RO p = Exit) /\
-  (1 / 10000000000000000 <= Rabs (p - 1) -> Rabs p < 1 ->
+  (Rabs (p - 1) < 1 / 10000000000000000 \/ Rabs (p + 1) < 1 / 10000000000000000 -> guard_inv_erf RO p = Ok tt) /\
+  (1 / 10000000000000000 <= Rabs (p - 1) -> 1 / 10000000000000000 <= Rabs (p + 1) -> 1 <= Rabs p -> guard_inv_erf RO p = Exit) /\
+  (1 / 10000000000000000 <= Rabs (p - 1) -> 1 / 10000000000000000 <= Rabs (p + 1) -> Rabs p < 1 ->
      guard_inv_erf RO p = guard_find_root RO (fun x => Rerf x - p) (- 10) 10).
 Proof.
-  unfold guard_inv_erf, lit_1em16, ngeb. cbn [nltb nabs nsub n1 nlit nleb nneg nofZ nerf ROps].
-  destruct (Rltb_spec (Rabs (p - 1)) (1 / 10000000000000000)); (split; [|split]); intros; try lra; try reflexivity.
+  unfold guard_inv_erf, lit_1em16, ngeb. cbn [nltb nabs nsub nadd n1 nlit nleb nneg nofZ nerf ROps].
+  destruct (Rltb_spec (Rabs (p - 1)) (1 / 10000000000000000));
+    destruct (Rltb_spec (Rabs (p + 1)) (1 / 10000000000000000)); (split; [|split]); intros; try lra; try reflexivity.
   - destruct (Rleb_spec 1 (Rabs p)); [reflexivity|lra].
   - destruct (Rleb_spec 1 (Rabs p)); [lra|reflexivity].
 Qed.
